@@ -94,6 +94,7 @@ func (agent *Agent) Get(opts GetOptions, cb GetCallback) (PendingOp, error) {
 	key := string(opts.Key)
 	r := &SimRequest{Kind: "get", Key: key, Vb: vb, Node: node, Deadline: deadlineNanos(opts.Deadline)}
 	r.exec = func() (any, error) {
+		key := string(opts.Key) // the key bytes go onto the wire only now: gocbcore holds the caller's slice by reference until then
 		d := agent.ag.c.Bucket(agent.ag.bucket).get(key)
 		if d == nil {
 			return nil, kvErr(ErrDocumentNotFound, memd.StatusKeyNotFound, key)
@@ -115,6 +116,7 @@ func (agent *Agent) Set(opts SetOptions, cb StoreCallback) (PendingOp, error) {
 	key := string(opts.Key)
 	r := &SimRequest{Kind: "set", Key: key, Vb: vb, Node: node, Deadline: deadlineNanos(opts.Deadline)}
 	r.exec = func() (any, error) {
+		key := string(opts.Key) // the key bytes go onto the wire only now: gocbcore holds the caller's slice by reference until then
 		b := agent.ag.c.Bucket(agent.ag.bucket)
 		d := b.get(key)
 		if d == nil {
@@ -144,6 +146,7 @@ func (agent *Agent) Delete(opts DeleteOptions, cb DeleteCallback) (PendingOp, er
 	key := string(opts.Key)
 	r := &SimRequest{Kind: "delete", Key: key, Vb: vb, Node: node, Deadline: deadlineNanos(opts.Deadline)}
 	r.exec = func() (any, error) {
+		key := string(opts.Key) // the key bytes go onto the wire only now: gocbcore holds the caller's slice by reference until then
 		b := agent.ag.c.Bucket(agent.ag.bucket)
 		d := b.get(key)
 		if d == nil {
@@ -172,6 +175,7 @@ func (agent *Agent) MutateIn(opts MutateInOptions, cb MutateInCallback) (Pending
 	key := string(opts.Key)
 	r := &SimRequest{Kind: "mutatein", Key: key, Vb: vb, Node: node, Deadline: deadlineNanos(opts.Deadline)}
 	r.exec = func() (any, error) {
+		key := string(opts.Key) // the key bytes go onto the wire only now: gocbcore holds the caller's slice by reference until then
 		b := agent.ag.c.Bucket(agent.ag.bucket)
 		d := b.get(key)
 		mk := opts.Flags&memd.SubdocDocFlagMkDoc != 0
@@ -242,6 +246,7 @@ func (agent *Agent) LookupIn(opts LookupInOptions, cb LookupInCallback) (Pending
 	key := string(opts.Key)
 	r := &SimRequest{Kind: "lookupin", Key: key, Vb: vb, Node: node, Deadline: deadlineNanos(opts.Deadline)}
 	r.exec = func() (any, error) {
+		key := string(opts.Key) // the key bytes go onto the wire only now: gocbcore holds the caller's slice by reference until then
 		d := agent.ag.c.Bucket(agent.ag.bucket).get(key)
 		if d == nil {
 			return nil, kvErr(ErrDocumentNotFound, memd.StatusKeyNotFound, key)
